@@ -99,7 +99,7 @@ static int             led_cnt;
 static uint64_t        led_seq;
 static atomic_ullong   body_seq; // unique per body written by the harness
 static pthread_mutex_t led_mx = PTHREAD_MUTEX_INITIALIZER;
-static char            prog_tag[48]; // for violation details
+static char            prog_tag[112]; // for violation details
 static bool            mt_mode, matrix_mode;
 
 // The same pointer may appear more than once: over inproc the peer can
@@ -118,17 +118,127 @@ led_find_st(nng_msg *m, int st) // st == L_NONE: any state
 }
 
 #define BODY_TAG 3u
+// Every body the harness writes is recorded by its sequence number, so that a
+// damaged body can be explained (whose bytes are these?).
+typedef struct {
+	char        kind; // 'A' fresh message, 'B' nng_send buffer, 'S' written over a received message
+	uint32_t    len;
+	uint64_t    origin; // 'S': sequence number of the body that was received
+	const void *ptr;    // the nng_msg it was written into
+	char        who[20]; // 'A'/'B': protocol it was built for, 'S': protocol that received it
+} bodyrec;
+#define BR_N 65536
+static bodyrec   brec[BR_N];
+static uint64_t  brec_base; // body_seq at the start of the program
+static bool      scribble_all; // hunting aid: write to every received message
+
+static uint64_t
+body_record(char kind, size_t len, uint64_t origin, const void *ptr, const char *who)
+{
+	uint64_t seq = atomic_fetch_add(&body_seq, 1) + 1;
+	if (seq - brec_base < BR_N) {
+		bodyrec *b = &brec[seq - brec_base];
+		b->kind    = kind;
+		b->len     = (uint32_t) len;
+		b->origin  = origin;
+		b->ptr     = ptr;
+		snprintf(b->who, sizeof(b->who), "%s", who);
+	}
+	return seq;
+}
+
 // write a fresh self-describing body (the application may do what it likes
 // with a message it owns)
 static void
-body_write(nng_msg *m)
+body_write(nng_msg *m, char kind, uint64_t origin, const char *who)
 {
 	size_t len = nng_msg_len(m);
 	if (len >= VF_BODY_MIN) {
-		vf_body_make(nng_msg_body(m), len, BODY_TAG, atomic_fetch_add(&body_seq, 1) + 1);
+		vf_body_make(nng_msg_body(m), len, BODY_TAG, body_record(kind, len, origin, m, who));
 	} else if (len > 0) {
 		memset(nng_msg_body(m), (int) (0x40 + len), len);
 	}
+}
+
+static void topo_describe(char *buf, size_t sz); // after the model
+
+static void
+hexline(char *out, size_t osz, const uint8_t *p, size_t from, size_t to)
+{
+	size_t n = 0;
+	out[0]   = 0;
+	for (size_t i = from; i < to && n + 3 < osz; i++) {
+		n += (size_t) snprintf(out + n, osz - n, "%02x", p[i]);
+	}
+}
+
+// A received body has intact magic and length field but a wrong checksum.
+// Explain it.  Returns 'S' (bytes written by the harness into ANOTHER
+// receiver's message are in it: the two share memory), 'M' (bytes of a
+// different original message), 'T' (header and payload belong to different
+// writes of the harness into the same message) or '?' (arbitrary damage).
+static char
+classify_damage(nng_msg *m, const char *proto, const char *api, char *diag, size_t dsz)
+{
+	const uint8_t *b   = nng_msg_body(m);
+	size_t         len = nng_msg_len(m);
+	uint32_t       t2  = ((uint32_t) b[4] << 24) | ((uint32_t) b[5] << 16) | ((uint32_t) b[6] << 8) | b[7];
+	uint64_t       s2  = 0;
+	char           cls = '?';
+	uint8_t       *want = malloc(len), *cand = malloc(len);
+	size_t         first = len, last = 0;
+	for (int k = 8; k < 16; k++) s2 = (s2 << 8) | b[k];
+	if (want == NULL || cand == NULL) {
+		free(want);
+		free(cand);
+		snprintf(diag, dsz, "no memory to classify");
+		return '?';
+	}
+	vf_body_make(want, len, t2, s2);
+	for (size_t i = 0; i < len; i++) {
+		if (want[i] != b[i]) {
+			if (first == len) first = i;
+			last = i;
+		}
+	}
+	const bodyrec *own = (s2 > brec_base && s2 - brec_base < BR_N) ? &brec[s2 - brec_base] : NULL;
+	uint64_t       hit = 0;
+	uint64_t       top = atomic_load(&body_seq);
+	for (uint64_t q = brec_base + 1; q <= top && q - brec_base < BR_N && first < len; q++) {
+		const bodyrec *r = &brec[q - brec_base];
+		if (q == s2 || r->len != len) continue;
+		vf_body_make(cand, len, BODY_TAG, q);
+		// the differing region (beyond the 24-byte header) must be this body's
+		size_t from = first < VF_BODY_MIN ? VF_BODY_MIN : first;
+		if (from <= last && memcmp(cand + from, b + from, last - from + 1) == 0 && last - from + 1 >= 8) {
+			hit = q;
+			cls = r->kind == 'S' ? (r->ptr != (const void *) m ? 'S' : 'T') : 'M';
+			break;
+		}
+	}
+	char h1[2 * 48 + 1], h2[2 * 48 + 1];
+	size_t from = first < len ? first : 0, to = from + 48 < len ? from + 48 : len;
+	hexline(h1, sizeof(h1), b, from, to);
+	hexline(h2, sizeof(h2), want, from, to);
+	snprintf(diag, dsz, "header says tag %u seq %llu (%s); bytes %zu..%zu of %zu differ from that body; %s; received[%zu..]=%s expected=%s",
+	    t2, (unsigned long long) s2,
+	    own ? (own->kind == 'S' ? "written over a received message" : own->kind == 'B' ? "nng_send buffer" : "fresh message") : "unknown writer",
+	    first, last, len,
+	    hit ? "the differing bytes are those of another body the harness wrote" : "the differing bytes match no body the harness wrote with this length",
+	    from, h1, h2);
+	fprintf(stderr, "C03 DAMAGED BODY in %s: %s on %s, message %p, %zu bytes, class %c\n  %s\n", prog_tag, api, proto, (void *) m, len, cls, diag);
+	if (own != NULL) {
+		fprintf(stderr, "  claimed body seq %llu: kind %c len %u origin %llu written into %p for/by %s\n", (unsigned long long) s2, own->kind, own->len, (unsigned long long) own->origin, own->ptr, own->who);
+	}
+	if (hit) {
+		const bodyrec *r = &brec[hit - brec_base];
+		fprintf(stderr, "  foreign bytes are body seq %llu: kind %c len %u origin %llu written into %p for/by %s\n", (unsigned long long) hit, r->kind, r->len, (unsigned long long) r->origin, r->ptr, r->who);
+		size_t dl = strlen(diag);
+		snprintf(diag + dl, dsz - dl, "; foreign body seq %llu kind %c origin %llu by %s", (unsigned long long) hit, r->kind, (unsigned long long) r->origin, r->who);
+	}
+	free(want);
+	free(cand);
+	return cls;
 }
 
 static void
@@ -200,7 +310,7 @@ led_count(void)
 
 // allocate a fresh message owned by the app, marked busy (about to be sent)
 static nng_msg *
-led_alloc(size_t sz, uint64_t key, int *slot)
+led_alloc(size_t sz, const char *who, int *slot)
 {
 	nng_msg *m;
 	if (led_count() >= LMAX - 64) {
@@ -210,8 +320,7 @@ led_alloc(size_t sz, uint64_t key, int *slot)
 	if (nng_msg_alloc(&m, sz) != 0) {
 		vf_harness_fail("nng_msg_alloc(%zu)", sz);
 	}
-	(void) key;
-	body_write(m);
+	body_write(m, 'A', 0, who);
 	pthread_mutex_lock(&led_mx);
 	// (an entry in L_BUSY with this address is a send that the library has
 	// already consumed and freed, only its completion is not reported yet)
@@ -340,30 +449,18 @@ led_take(nng_msg *m, int st, const char *proto, const char *api, int *slot)
 	uint64_t bseq = 0;
 	size_t   len  = nng_msg_len(m);
 	bool     bad  = false;
-	char     diag[160] = "";
+	char     diag[900] = "";
+	char     cls       = 0;
 	int      rc   = len >= VF_BODY_MIN ? vf_body_check(nng_msg_body(m), len, &tag, &bseq) : -1;
 	if (rc == 0 && tag == BODY_TAG) {
 		vf_stat("bodies_verified", 1);
 	} else if (rc == -4) {
-		// where does it differ from what its own header announces?
-		const uint8_t *b = nng_msg_body(m);
-		uint32_t       t2 = ((uint32_t) b[4] << 24) | ((uint32_t) b[5] << 16) | ((uint32_t) b[6] << 8) | b[7];
-		uint64_t       s2 = 0;
-		for (int k = 8; k < 16; k++) s2 = (s2 << 8) | b[k];
-		uint8_t *want = malloc(len);
-		size_t   off  = len;
-		if (want != NULL) {
-			vf_body_make(want, len, t2, s2);
-			for (off = 0; off < len && want[off] == b[off]; off++) {
-			}
-			free(want);
-		}
-		snprintf(diag, sizeof(diag), "tag %u seq %llu, first byte that does not fit that header at offset %zu, header_len %zu", t2, (unsigned long long) s2, off, nng_msg_header_len(m));
 		// magic and length field are in place but the checksum is not.
 		// (A body whose front was consumed as protocol header by a
 		// receiver - raw sender without header words - fails the magic
 		// or length test instead and is not judged.)
 		bad = true;
+		cls = classify_damage(m, proto, api, diag, sizeof(diag));
 	} else {
 		bseq = 0;
 	}
@@ -386,13 +483,13 @@ led_take(nng_msg *m, int st, const char *proto, const char *api, int *slot)
 			}
 		}
 	}
-	if (!bad && (led[i].seq & 1)) {
+	if (!bad && ((led[i].seq & 1) || scribble_all)) {
 		if ((led[i].seq & 6) == 2 && len < 100000) {
 			nng_msg_append(m, "scribblescribble", 1 + (led[i].seq >> 3) % 16);
 		} else if ((led[i].seq & 6) == 4 && len > VF_BODY_MIN + 4) {
 			nng_msg_chop(m, 1 + (led[i].seq >> 3) % 4);
 		}
-		body_write(m);
+		body_write(m, 'S', bseq, proto);
 		led[i].bseq = 0; // (no longer the delivered body)
 		led_sign(i);
 		vf_stat("received_msgs_scribbled", 1);
@@ -404,15 +501,22 @@ led_take(nng_msg *m, int st, const char *proto, const char *api, int *slot)
 	vf_stat("msgs_from_lib", 1);
 	vf_stat(mt_mode ? "mt_msgs_from_lib" : matrix_mode ? "matrix_msgs_from_lib" : "st_msgs_from_lib", 1);
 	if (bad) {
-		// Not a verdict: integrity of delivered bytes is C01's clause, and
-		// this was observed once in ~70 000 programs on the unchanged tree
-		// without a reproducible cause.  It is counted and sampled; the
-		// aliasing verdict is the re-verification of idle application-
-		// owned messages (led_verify), which is sound by construction.
+		// Topology for the record
+		char topo[400] = "";
+		topo_describe(topo, sizeof(topo));
+		fprintf(stderr, "  open sockets: %s\n", topo);
 		vf_stat("received_body_crc_mismatch", 1);
-		vf_sample("{\"observation\":\"received body with intact magic/length but wrong checksum\",\"program\":\"%s\",\"api\":\"%s\",\"proto\":\"%s\",\"bytes\":%zu,\"diag\":\"%s\"}", prog_tag, api, proto, len, diag);
-		fprintf(stderr, "C03 note: %s: %s on %s delivered %zu bytes with damaged self-describing body (%s)\n", prog_tag, api, proto, len, diag);
+		vf_sample("{\"observation\":\"damaged received body\",\"class\":\"%c\",\"program\":\"%s\",\"api\":\"%s\",\"proto\":\"%s\",\"sockets\":\"%s\",\"diag\":\"%s\"}", cls, prog_tag, api, proto, topo, diag);
 		trace_dump();
+		if (cls == 'S') {
+			snprintf(key, sizeof(key), "C03/aliasing/received-body-shared-with-another-receiver/%s", proto);
+			vf_violation(key, "%s: %s delivered message %p whose body contains bytes that the application wrote into ANOTHER received message: two receivers share one body. %s", prog_tag, api, (void *) m, diag);
+		} else if (cls == 'M') {
+			snprintf(key, sizeof(key), "C03/aliasing/received-body-mixed-with-other-message/%s", proto);
+			vf_violation(key, "%s: %s delivered message %p whose body is a mixture of two different messages. %s", prog_tag, api, (void *) m, diag);
+		}
+		// class '?' / 'T' stay observations (counted and sampled): byte
+		// integrity as such is C01's clause
 	}
 	return true;
 }
@@ -532,6 +636,20 @@ typedef struct {
 
 #define LOCK() pthread_mutex_lock(&mx)
 #define UNLOCK() pthread_mutex_unlock(&mx)
+
+static void
+topo_describe(char *buf, size_t sz)
+{
+	buf[0] = 0;
+	for (int k = 0; k < MAXS; k++) {
+		if (S[k].open) {
+			size_t tl = strlen(buf);
+			snprintf(buf + tl, sz - tl, "%s%s(pipes=%d) ", S[k].name, S[k].dev_owned ? "[dev]" : "", atomic_load(&S[k].live_pipes));
+		}
+	}
+	size_t tl = strlen(buf);
+	snprintf(buf + tl, sz - tl, "transports=%#x", atomic_load(&trans_used));
+}
 
 static bool
 can_send(int pk)
@@ -735,7 +853,10 @@ pick_size(vf_rng *r)
 static nng_msg *
 build_msg(vf_rng *r, int pk, bool raw, uint32_t route, size_t sz, int *slot)
 {
-	nng_msg *m = led_alloc(sz, vf_rand(r), slot);
+	char who[20];
+	snprintf(who, sizeof(who), "%s%s", raw ? "x" : "", vf_protos[pk].name);
+	(void) vf_rand(r);
+	nng_msg *m = led_alloc(sz, who, slot);
 	if (m == NULL) {
 		return NULL;
 	}
@@ -1227,7 +1348,7 @@ op_send(thr *t)
 		snprintf(phase, sizeof(phase), "%s", tg.phase);
 		UNLOCK();
 		uint8_t *buf = malloc(len + 1);
-		if (len >= VF_BODY_MIN) vf_body_make(buf, len, BODY_TAG, atomic_fetch_add(&body_seq, 1) + 1); else memset(buf, 0x5a, len);
+		if (len >= VF_BODY_MIN) vf_body_make(buf, len, BODY_TAG, body_record('B', len, 0, buf, tg.pname)); else memset(buf, 0x5a, len);
 		int fl = vf_chance(&t->r, 1, 2) ? NNG_FLAG_NONBLOCK : 0;
 		cell(fl ? "send_bytes_nb" : "send_bytes", &tg);
 		tr("t%d nng_send%s %s len=%zu [%s]", t->id, fl ? "(NB)" : "", tg.pname, len, phase);
@@ -1877,6 +1998,285 @@ op_ep_close(thr *t)
 	vf_stat("endpoints_closed", 1);
 }
 
+
+// ---------------------------------------------------------------- endpoints whose start failed
+// A listener started on an address another listener of the program holds, a
+// dialer started synchronously on an address nobody listens on: the start
+// fails and the endpoint stays a valid handle.  Then every option the tables
+// know is read and written on it, it is started again, its URL is read, and it
+// is closed.  The same for stream listeners / dialers.
+static const char *ftran_name[] = { "inproc", "ipc", "tcp", "ws", "sockfd", "abstract" };
+enum { FT_ABSTRACT = 5 };
+
+static int
+url_tran(const char *u)
+{
+	if (!strncmp(u, "inproc:", 7)) return VF_T_INPROC;
+	if (!strncmp(u, "ipc:", 4)) return VF_T_IPC;
+	if (!strncmp(u, "tcp:", 4)) return VF_T_TCP;
+	if (!strncmp(u, "ws:", 3)) return VF_T_WS;
+	if (!strncmp(u, "abstract:", 9)) return FT_ABSTRACT;
+	return VF_T_SOCKFD;
+}
+
+static long
+sweep_failed_ep(thr *t, bool dialer, nng_dialer d, nng_listener l, const char *pname, const char *tn)
+{
+	long           calls = 0;
+	int            kind  = dialer ? TG_DIALER : TG_LISTENER;
+	const nng_url *u     = NULL;
+	nng_sockaddr   sa;
+	for (int i = 0; i < NOPTS; i++) {
+		const optdef *o = &opts[i];
+		(void) get_opt(kind, (nng_socket) { 0 }, (nng_ctx) { 0 }, d, l, o);
+		int rv = set_opt(kind, (nng_socket) { 0 }, (nng_ctx) { 0 }, d, l, o, o->vals[vf_below(&t->r, (uint32_t) o->nvals)]);
+		(void) get_opt(kind, (nng_socket) { 0 }, (nng_ctx) { 0 }, d, l, o);
+		calls += 3;
+		if (rv == 0) vf_class("failed-ep/set/%s/%s/%s", dialer ? "dialer" : "listener", tn, o->tag);
+	}
+	if (dialer) {
+		int port = 0;
+		(void) sa; // (nng_dialer_get_addr is declared in nng.h but not implemented)
+		(void) nng_dialer_get_int(d, NNG_OPT_BOUND_PORT, &port);
+		(void) nng_dialer_get_url(d, &u);
+		int rv = nng_dialer_start(d, 0);
+		tr("t%d   failed dialer on %s (%s): second start -> %d", t->id, pname, tn, rv);
+		(void) nng_dialer_get_url(d, &u);
+		calls += 5;
+		if (rv == 0) vf_stat("failed_ep_second_start_ok", 1);
+		nng_dialer_close(d);
+	} else {
+		int port = 0;
+		(void) nng_listener_get_int(l, NNG_OPT_BOUND_PORT, &port);
+		(void) nng_listener_get_url(l, &u);
+		int rv = nng_listener_start(l, 0);
+		tr("t%d   failed listener on %s (%s): second start -> %d", t->id, pname, tn, rv);
+		(void) nng_listener_get_url(l, &u);
+		(void) nng_listener_get_int(l, NNG_OPT_BOUND_PORT, &port);
+		calls += 5;
+		if (rv == 0) vf_stat("failed_ep_second_start_ok", 1);
+		nng_listener_close(l);
+	}
+	return calls + 1;
+}
+
+static void
+refusing_url(thr *t, int ft, char *url, size_t sz)
+{
+	static atomic_int n;
+	int               k = atomic_fetch_add(&n, 1);
+	uint16_t          port = 0;
+	(void) t;
+	if (ft == VF_T_TCP || ft == VF_T_WS) {
+		int fd = vf_tcp_listen(&port); // a port that was free a moment ago
+		if (fd >= 0) close(fd);
+	}
+	switch (ft) {
+	case VF_T_TCP: snprintf(url, sz, "tcp://127.0.0.1:%u", (unsigned) port); break;
+	case VF_T_WS: snprintf(url, sz, "ws://127.0.0.1:%u/none%d", (unsigned) port, k); break;
+	case VF_T_IPC: snprintf(url, sz, "ipc:///tmp/vf-c03-none-%d-%d.sock", (int) getpid(), k); break;
+	case FT_ABSTRACT: snprintf(url, sz, "abstract://vf-c03-none-%d-%d", (int) getpid(), k); break;
+	default: snprintf(url, sz, "inproc://vf-c03-none-%d-%d", (int) getpid(), k); break;
+	}
+}
+
+static void
+op_failed_endpoint(thr *t)
+{
+	target tg;
+	char   url[128] = "";
+	bool   dialer   = vf_chance(&t->r, 1, 2);
+	static const int fts[] = { VF_T_INPROC, VF_T_IPC, VF_T_TCP, VF_T_WS, FT_ABSTRACT };
+	int              ft    = fts[vf_below(&t->r, 5)];
+	LOCK();
+	if (!pick_target(t, false, false, &tg)) {
+		UNLOCK();
+		return;
+	}
+	if (!dialer) {
+		// an address a listener of this program holds (prefer the wanted transport)
+		int es = (int) vf_below(&t->r, MAXE), best = -1;
+		for (int k = 0; k < MAXE; k++) {
+			int i = (es + k) % MAXE;
+			if (E[i].open && !E[i].dialer && E[i].s >= 0 && E[i].url[0] && S[E[i].s].open && !S[E[i].s].closing) {
+				if (best < 0 || url_tran(E[i].url) == ft) best = i;
+			}
+		}
+		if (best >= 0) snprintf(url, sizeof(url), "%s", E[best].url);
+	}
+	UNLOCK();
+	if (!dialer && (url[0] == 0 || url_tran(url) != ft)) {
+		// nobody holds such an address yet: occupy one with a listener of our own first
+		nng_listener first;
+		char         lurl[128];
+		if (ft == FT_ABSTRACT) {
+			refusing_url(t, ft, lurl, sizeof(lurl));
+		} else {
+			vf_url(ft, lurl, sizeof(lurl));
+		}
+		int ep = -1;
+		int rv = nng_listen(tg.hs, lurl, &first, 0);
+		if (rv == 0 && vf_dial_url(first, ft == FT_ABSTRACT ? VF_T_IPC : ft, lurl, url, sizeof(url)) == 0) {
+			LOCK();
+			if ((ep = free_ep_slot()) >= 0) {
+				E[ep].open   = true;
+				E[ep].dialer = false;
+				E[ep].s      = tg.si;
+				E[ep].tran   = ft == FT_ABSTRACT ? VF_T_IPC : ft;
+				E[ep].l      = first;
+				snprintf(E[ep].url, sizeof(E[ep].url), "%s", url);
+			}
+			UNLOCK();
+			if (ep < 0) {
+				nng_listener_close(first);
+				url[0] = 0;
+			}
+		} else {
+			url[0] = 0;
+		}
+	}
+	if (dialer) refusing_url(t, ft, url, sizeof(url));
+	if (url[0] == 0) {
+		LOCK();
+		put_target(&tg);
+		UNLOCK();
+		return;
+	}
+	const char *tn = ftran_name[url_tran(url)];
+	int         rv;
+	char        sk[64];
+	if (dialer) {
+		nng_dialer d;
+		if ((rv = nng_dialer_create(&d, tg.hs, url)) == 0) {
+			rv = nng_dialer_start(d, 0); // synchronous: reports the refusal
+			tr("t%d dialer on %s to %s (nobody listens) start -> %d", t->id, tg.pname, url, rv);
+			if (rv != 0) {
+				snprintf(sk, sizeof(sk), "failed_dialer_start_%s", tn);
+				vf_stat(sk, 1);
+				vf_stat("failed_dialer_starts", 1);
+				vf_class("failed-ep/dialer/%s/%s/%s", tn, tg.pname, nng_strerror(rv));
+				vf_stat("calls_on_failed_endpoints", sweep_failed_ep(t, true, d, (nng_listener) { 0 }, tg.pname, tn));
+			} else {
+				nng_dialer_close(d);
+			}
+		}
+	} else {
+		nng_listener l;
+		if ((rv = nng_listener_create(&l, tg.hs, url)) == 0) {
+			rv = nng_listener_start(l, 0);
+			tr("t%d listener on %s at %s (address held) start -> %d", t->id, tg.pname, url, rv);
+			if (rv != 0) {
+				snprintf(sk, sizeof(sk), "failed_listener_start_%s", tn);
+				vf_stat(sk, 1);
+				vf_stat("failed_listener_starts", 1);
+				vf_class("failed-ep/listener/%s/%s/%s", tn, tg.pname, nng_strerror(rv));
+				vf_stat("calls_on_failed_endpoints", sweep_failed_ep(t, false, (nng_dialer) { 0 }, l, tg.pname, tn));
+			} else {
+				nng_listener_close(l);
+			}
+		}
+	}
+	LOCK();
+	put_target(&tg);
+	UNLOCK();
+}
+
+// stream listeners / dialers whose listen / dial failed
+static void
+op_failed_stream(thr *t)
+{
+	char url[128] = "";
+	static const int fts[] = { VF_T_IPC, VF_T_TCP, VF_T_WS, FT_ABSTRACT };
+	int              ft    = fts[vf_below(&t->r, 4)];
+	nng_aio         *aio;
+	int              iv;
+	bool             bv;
+	size_t           zv;
+	const char      *sv;
+	long             calls = 0;
+	char             sk[64];
+	if (nng_aio_alloc(&aio, NULL, NULL) != 0) vf_harness_fail("nng_aio_alloc");
+	nng_aio_set_timeout(aio, 50);
+	if (vf_chance(&t->r, 1, 2)) {
+		// two stream listeners on one address: the second listen fails
+		nng_stream_listener *a = NULL, *b = NULL;
+		refusing_url(t, ft, url, sizeof(url)); // free right now; 'a' takes it
+		if (nng_stream_listener_alloc(&a, url) == 0 && nng_stream_listener_listen(a) == 0 && nng_stream_listener_alloc(&b, url) == 0) {
+			int rv = nng_stream_listener_listen(b);
+			tr("t%d stream listener at %s (address held) listen -> %d", t->id, url, rv);
+			if (rv != 0) {
+				snprintf(sk, sizeof(sk), "failed_stream_listen_%s", ftran_name[ft]);
+				vf_stat(sk, 1);
+				vf_stat("failed_stream_listens", 1);
+				vf_class("failed-ep/stream-listener/%s/%s", ftran_name[ft], nng_strerror(rv));
+				(void) nng_stream_listener_get_int(b, NNG_OPT_BOUND_PORT, &iv);
+				(void) nng_stream_listener_get_bool(b, NNG_OPT_TCP_NODELAY, &bv);
+				(void) nng_stream_listener_set_bool(b, NNG_OPT_TCP_NODELAY, true);
+				(void) nng_stream_listener_set_bool(b, NNG_OPT_TCP_KEEPALIVE, true);
+				(void) nng_stream_listener_get_size(b, NNG_OPT_RECVMAXSZ, &zv);
+				(void) nng_stream_listener_set_size(b, NNG_OPT_RECVMAXSZ, 100);
+				(void) nng_stream_listener_set_size(b, NNG_OPT_WS_RECVMAXFRAME, 126);
+				(void) nng_stream_listener_set_size(b, NNG_OPT_WS_SENDMAXFRAME, 16);
+				(void) nng_stream_listener_get_string(b, NNG_OPT_WS_PROTOCOL, &sv);
+				(void) nng_stream_listener_set_string(b, NNG_OPT_WS_PROTOCOL, strvals[vf_below(&t->r, 4)]);
+				(void) nng_stream_listener_set_string(b, NNG_OPT_WS_HEADER "X-Vf", "v");
+				(void) nng_stream_listener_set_int(b, NNG_OPT_IPC_PERMISSIONS, 0600);
+				nng_stream_listener_accept(b, aio); // documented to fail or time out
+				nng_aio_wait(aio);
+				if (nng_aio_result(aio) == 0) {
+					nng_stream *st = nng_aio_get_output(aio, 0);
+					if (st != NULL) nng_stream_free(st);
+				}
+				rv = nng_stream_listener_listen(b); // a second listen
+				(void) nng_stream_listener_get_int(b, NNG_OPT_BOUND_PORT, &iv);
+				calls += 16;
+				nng_stream_listener_close(b);
+			}
+		}
+		if (b != NULL) nng_stream_listener_free(b);
+		if (a != NULL) nng_stream_listener_free(a);
+	} else {
+		nng_stream_dialer *d = NULL;
+		refusing_url(t, ft, url, sizeof(url));
+		if (nng_stream_dialer_alloc(&d, url) == 0) {
+			nng_stream_dialer_dial(d, aio);
+			nng_aio_wait(aio);
+			int rv = (int) nng_aio_result(aio);
+			tr("t%d stream dialer to %s (nobody listens) dial -> %d", t->id, url, rv);
+			if (rv != 0) {
+				snprintf(sk, sizeof(sk), "failed_stream_dial_%s", ftran_name[ft]);
+				vf_stat(sk, 1);
+				vf_stat("failed_stream_dials", 1);
+				vf_class("failed-ep/stream-dialer/%s/%s", ftran_name[ft], nng_strerror(rv));
+				(void) nng_stream_dialer_get_bool(d, NNG_OPT_TCP_NODELAY, &bv);
+				(void) nng_stream_dialer_set_bool(d, NNG_OPT_TCP_NODELAY, false);
+				(void) nng_stream_dialer_set_bool(d, NNG_OPT_TCP_KEEPALIVE, true);
+				(void) nng_stream_dialer_get_size(d, NNG_OPT_RECVMAXSZ, &zv);
+				(void) nng_stream_dialer_set_size(d, NNG_OPT_RECVMAXSZ, 100);
+				(void) nng_stream_dialer_set_size(d, NNG_OPT_WS_SENDMAXFRAME, 16);
+				(void) nng_stream_dialer_get_string(d, NNG_OPT_WS_PROTOCOL, &sv);
+				(void) nng_stream_dialer_set_string(d, NNG_OPT_WS_PROTOCOL, strvals[vf_below(&t->r, 4)]);
+				(void) nng_stream_dialer_set_string(d, NNG_OPT_WS_HEADER "X-Vf", "v");
+				nng_stream_dialer_dial(d, aio); // once more
+				nng_aio_wait(aio);
+				if (nng_aio_result(aio) == 0) {
+					nng_stream *st = nng_aio_get_output(aio, 0);
+					if (st != NULL) nng_stream_free(st);
+				}
+				calls += 11;
+				nng_stream_dialer_close(d);
+			} else {
+				nng_stream *st = nng_aio_get_output(aio, 0);
+				if (st != NULL) nng_stream_free(st);
+			}
+			nng_stream_dialer_free(d);
+		}
+	}
+	nng_aio_free(aio);
+	vf_stat("calls_on_failed_endpoints", calls);
+	vf_stat("calls_on_failed_streams", calls);
+}
+
 // ---------------------------------------------------------------- aio actions
 static void
 finish_echo_or_pend(thr *t, int i, int how)
@@ -2403,6 +2803,7 @@ model_reset(void)
 	atomic_store(&ops_done, 0);
 	atomic_store(&trace_n, 0);
 	atomic_store(&trans_used, 0);
+	brec_base = atomic_load(&body_seq);
 }
 
 static int
@@ -2443,7 +2844,9 @@ random_op(thr *t)
 	else if (x < 95) op_stats(t);
 	else if (x < 97) op_subscribe(t);
 	else if (x < 98) op_free_msgs(t);
-	else op_aio_alloc_free(t);
+	else if (x < 99) op_aio_alloc_free(t);
+	else if (vf_chance(&t->r, 2, 3)) op_failed_endpoint(t);
+	else op_failed_stream(t);
 }
 
 static void *
@@ -2555,7 +2958,7 @@ run_random_program(long idx)
 	vf_rng_seed(&r, vf_seed, (uint64_t) idx);
 	model_reset();
 	int nthr   = mt_mode ? (int) vf_range(&r, 2, 4) : 1;
-	race_prog  = vf_chance(&r, 1, 16);
+	race_prog  = vf_chance(&r, 1, 16) && getenv("C03_HUB") == NULL;
 	ops_target = (long) vf_range(&r, 20, 200);
 	static const int tt[] = { 2, 4, 8 };
 	int              task = tt[vf_below(&r, 3)], expi = (int) vf_range(&r, 1, 2), poll = (int) vf_range(&r, 1, 2);
@@ -2625,6 +3028,10 @@ run_random_program(long idx)
 	}
 	vf_stat("calls", atomic_load(&ops_done) > ops_target ? ops_target : atomic_load(&ops_done));
 	vf_watchdog(30);
+	if (open_count() > 0 && vf_chance(&r, 2, 3)) {
+		op_failed_endpoint(&T[0]);
+		if (vf_chance(&r, 1, 3)) op_failed_stream(&T[0]);
+	}
 	teardown(&T[0]);
 	finish_program();
 	if ((idx & 63) == 0) {
@@ -2962,8 +3369,39 @@ main(int argc, char **argv)
 	vf_init(argc, argv);
 	prev_abrt = signal(SIGABRT, abrt_handler);
 	memset(str1k, 'a', sizeof(str1k) - 1);
+	scribble_all = getenv("C03_HUB") != NULL;
 	for (int i = 0; i < MAXS; i++) {
 		pthread_mutex_init(&S[i].pmx, NULL);
+	}
+	if (getenv("C03_SELFTEST") != NULL) {
+		// classifier self-test: a body whose tail was overwritten by a
+		// write into another message must be classified 'S', by another
+		// original 'M', by garbage '?'
+		nng_msg *a, *b, *c;
+		char     diag[900];
+		vf_nng_init(2, 1, 1);
+		nng_msg_alloc(&a, 200);
+		nng_msg_alloc(&b, 200);
+		nng_msg_alloc(&c, 200);
+		body_write(a, 'A', 0, "pub");
+		body_write(b, 'S', 1, "sub");
+		body_write(c, 'A', 0, "bus");
+		uint8_t save[200];
+		memcpy(save, nng_msg_body(a), 200);
+		memcpy((uint8_t *) nng_msg_body(a) + 100, (uint8_t *) nng_msg_body(b) + 100, 100);
+		char c1 = classify_damage(a, "sub", "selftest", diag, sizeof(diag));
+		memcpy(nng_msg_body(a), save, 200);
+		memcpy((uint8_t *) nng_msg_body(a) + 60, (uint8_t *) nng_msg_body(c) + 60, 140);
+		char c2 = classify_damage(a, "sub", "selftest", diag, sizeof(diag));
+		memcpy(nng_msg_body(a), save, 200);
+		memset((uint8_t *) nng_msg_body(a) + 150, 0xee, 20);
+		char c3 = classify_damage(a, "sub", "selftest", diag, sizeof(diag));
+		fprintf(stderr, "C03 selftest classes: %c %c %c (want S M ?)\n", c1, c2, c3);
+		nng_msg_free(a);
+		nng_msg_free(b);
+		nng_msg_free(c);
+		nng_fini();
+		return (c1 == 'S' && c2 == 'M' && c3 == '?') ? 0 : 2;
 	}
 	if (!strcmp(vf_mode, "matrix")) {
 		matrix_mode = true;
